@@ -105,6 +105,8 @@ def run(ctx):
 
     # (c) end to end through the JWS pipelines: header checks are called when consuming and when producing
     e2e(ctx)
+    # (d) JWE JSON: the header of EVERY recipient is checked, whatever verify_all_recipients says
+    e2e_jwe(ctx)
 
 
 def e2e(ctx):
@@ -182,6 +184,52 @@ def e2e(ctx):
                        {"kind": kind, "header": repr(h), "strict": strict, "extra": extra, "produced": produced},
                        f"produce:{kind}:{'accepts-bad' if not wantp else 'rejects-good'}")
     J.run_verify_cases(ctx, "header-consume", _batch, check_c01=False, prop="C15")
+
+
+def e2e_jwe(ctx):
+    from harness import jwecases as E
+    rng = ctx.rng
+    n = 30 if ctx.tier == "quick" else 300
+    batch = []
+    for _ in range(n):
+        algs = rng.sample(["A128KW", "RSA-OAEP", "ECDH-ES+A128KW", "A128GCMKW"], rng.choice([2, 3]))
+        strict = rng.random() < 0.6
+        extra = rng.choice(EXTRAS)
+        verify_all = rng.random() < 0.4
+        v, ks, meta = E.build_multi(rng, "A128GCM", algs, b"multi")
+        h = next(H.gen_headers(rng, "jwe", 1, algs))
+        for k in ("alg", "kid", "epk", "enc", "zip", "iv", "tag", "apu", "apv", "p2s", "p2c", "skid"):   # members that steer the cryptography
+            h.pop(k, None)
+        where = rng.choice(["recipient-0", "recipient-last", "unprotected"])
+        if where == "unprotected":
+            v["unprotected"] = h
+        else:
+            i = 0 if where == "recipient-0" else len(algs) - 1
+            v["recipients"][i]["header"].update(h)
+        try:
+            wire.enc_jval(v)
+        except wire.Unencodable:
+            continue
+        prot = {"enc": "A128GCM"}
+        oks = []
+        for r in v["recipients"]:
+            merged = dict(prot)
+            merged.update(v.get("unprotected", {}))
+            merged.update(r["header"])
+            oks.append(H.header_ok("jwe", strict, extra, merged, True))
+        want = all(oks)
+        reg = E.JReg(strict=strict, allowed=E.ALL_NAMES, extra=H.extra_registry(extra), verify_all=verify_all)
+        c = E.DCase(v, ks, None, reg, f"hdr-{where}-{'ok' if want else 'bad'}", meta)
+
+        def expect(case, impl, want=want, where=where, verify_all=verify_all):
+            if not want and impl[0] == "ok":
+                return f"a JWE whose {where} header violates HeaderOK was decrypted (verify_all_recipients={verify_all})"
+            if want and impl[0] != "ok":
+                return f"a JWE with acceptable headers was rejected ({impl[1]})"
+            return None
+        c.expect = expect
+        batch.append(c)
+    E.run_decrypt_cases(ctx, "header-consume-jwe", batch, check_c02=False, prop="C15")
 
 
 def jws_c7797(rng, alg, kn, priv, header):
